@@ -9,7 +9,7 @@ cd "$(dirname "$0")/lean" || exit 1
 import sys; sys.path.insert(0,'.')
 from harness.translators import states, effects
 states.generate(); effects.generate()
-for m in ('dtypes','shapes','defaults','atomicity','indexsites','plumbing','winplumb','kernels'):
+for m in ('dtypes','shapes','defaults','atomicity','indexsites','plumbing','winplumb','kernels','syncskel'):
     try:
         __import__('harness.translators.'+m, fromlist=['generate']).generate()
     except Exception:
